@@ -526,11 +526,13 @@ class ConstructedAsn1Type(Asn1Type):
         sizeSpec = kwargs.pop('sizeSpec', self.sizeSpec)
         if sizeSpec:
             subtypeSpec = kwargs.pop('subtypeSpec', self.subtypeSpec)
-            if subtypeSpec:
-                subtypeSpec = sizeSpec
-
-            else:
+            if not subtypeSpec:
                 subtypeSpec += sizeSpec
+
+            elif not sizeSpec.isSuperTypeOf(subtypeSpec):
+                # not there yet (cloning passes the moved one back in)
+                subtypeSpec = constraint.ConstraintsIntersection(
+                    subtypeSpec, sizeSpec)
 
             kwargs['subtypeSpec'] = subtypeSpec
 
